@@ -1,5 +1,5 @@
 (* C18 property theorems: statements only; every proof is [exact lemma]. *)
-From Gv Require Import lib.Bytes C18.Model C18.ModelV0 C18.Spec C18.ProofsInv C18.ProofsKey C18.ProofsDrain C18.ProofsIso
+From Gv Require Import lib.Bytes C18.Model C18.ModelV0 C18.Spec C18.ProofsBasic C18.ProofsInv C18.ProofsKey C18.ProofsDrain C18.ProofsIso
   C18.ProofsRouting C18.ProofsV0 C18.Proofs gen.Anchors_C18.
 From Coq Require Import List NArith Arith Bool.
 Import ListNotations.
@@ -9,12 +9,15 @@ Theorem c18_anchors :
   /\ anchor_dial_uses_caller_ctx = true /\ anchor_waiter_never_inherits_abort = true
   /\ anchor_book_before_publish = true /\ anchor_removeconn_by_key = true
   /\ anchor_subscribe_restarts_on_closed = true /\ anchor_close_decided_under_lock = true
-  /\ anchor_subscribe_write_conn_ctx = true.
+  /\ anchor_subscribe_write_conn_ctx = true
+  /\ anchor_subscribe_registers_before_ctx_test = true /\ anchor_dispatch_by_id_local = true
+  /\ anchor_into_client_message = true /\ anchor_decode_tws = model_decode_tws /\ anchor_decode_gws = model_decode_gws.
 Proof. exact anchors_ok. Qed.
 Print Assumptions c18_anchors.
 
-(* routing: on EVERY accepted action list the log passes the scanner of Spec.v: every upstream
-   frame (c, w) is delivered to exactly the subscription that registered w on c (it MUST be while that
+(* routing: on EVERY accepted action list -- upstream frames range over the whole alphabet of
+   c18_frame_conversion -- the log passes the scanner of Spec.v: every upstream
+   frame that means something for (c, w) is delivered to exactly the subscription that registered w on c (it MUST be while that
    subscription is live and uncancelled, it MAY be after its cancel), in upstream order, to nobody
    else, nothing is delivered that was not sent, a wire id is never reused, and a terminal frame
    unregisters only (c, w).  Non-vacuity: Proofs.ex_routing. *)
@@ -22,11 +25,37 @@ Theorem c18_routing : forall idl tr s log, run (init idl) tr = Some (s, log) -> 
 Proof. exact routing_proof. Qed.
 Print Assumptions c18_routing.
 
-(* complete / error for (c, w) removes exactly the entry (c, w): every other table, every other
-   entry of c and every subscriber's program point are untouched, nobody is failed *)
+(* the frame alphabet: for BOTH sub-protocols and EVERY frame -- every type either protocol knows, an unknown
+   type, something that is not JSON; with or without id; without / with an object / with an unusable payload --
+   the code's decoders, WireMessage.IntoClientMessage and dispatch's removal test (Model.decode, into_client,
+   wire_terminal) agree with what the frame means (Spec.spec_class): a frame that does not decode is a
+   protocol violation; ping / pong / ka and every id-less frame concern no subscription; everything else
+   addresses exactly the wire id it carries, is converted to the message kind the meaning prescribes, and is
+   followed by removeSub exactly when that kind is terminal.  In particular an error frame WITHOUT payload
+   and a legacy connection_error frame that carry an id are per-subscription terminal messages (converted to
+   MessageTypeConnectionError for that one handler), and the same frames without id are dropped. *)
+Theorem c18_frame_conversion : forall p f,
+  match decode p f with
+  | None => spec_class p f = FcFault
+  | Some m =>
+    match w_type m with
+    | WPing | WPong => spec_class p f = FcNone
+    | _ => match w_id m with
+           | None => spec_class p f = FcNone
+           | Some w => spec_class p f = FcSub w (into_client m) /\ wire_terminal (w_type m) = terminal (into_client m)
+           end
+    end
+  end.
+Proof. exact decode_class. Qed.
+Print Assumptions c18_frame_conversion.
+
+(* a frame that MEANS a terminal message for wire id w on connection c -- complete; error with or without
+   payload; legacy connection_error carrying an id -- removes exactly the entry (c, w): every other table,
+   every other entry of c and every subscriber's program point are untouched, nobody is failed.
+   Non-vacuity: Proofs.ex_terminal_local, ex_error_without_payload, ex_legacy_connection_error. *)
 Theorem c18_terminal_local : forall idl s log, reach idl s log ->
-  forall c w k s1 e1 s2 e2, terminal k = true ->
-    step s (UpMsg c w k) = Some (s1, e1) -> step s1 (ARLRemove c) = Some (s2, e2) ->
+  forall c x f w k s1 e1 s2 e2, cns s c = Some x -> spec_class (c_proto x) f = FcSub w k -> terminal k = true ->
+    step s (UpMsg c f) = Some (s1, e1) -> step s1 (ARLRemove c) = Some (s2, e2) ->
     (forall c' x x', c' <> c -> cns s c' = Some x -> cns s2 c' = Some x' -> c_subs x' = c_subs x)
     /\ (forall x x', cns s c = Some x -> cns s2 c = Some x' ->
           forall w' i, In (w', i) (c_subs x') <-> (In (w', i) (c_subs x) /\ w' <> w))
@@ -34,6 +63,35 @@ Theorem c18_terminal_local : forall idl s log, reach idl s log ->
     /\ (forall e, In e (e1 ++ e2) -> match e with OConnErr _ _ | ORet _ _ => False | _ => True end).
 Proof. exact terminal_local_proof. Qed.
 Print Assumptions c18_terminal_local.
+
+(* every other frame is local too: a frame that concerns no subscription (ping / pong / ka; an error, complete,
+   data or connection_error frame WITHOUT an id) and a frame for an id nobody holds on c (unknown, finished,
+   registered on another connection) change NOTHING; a frame for a held id reaches exactly its holder, and
+   changes no state unless it is terminal; a frame that violates the protocol is an upstream fault on
+   connection c alone -- its socket is dead with cause CUpstream (the subscriptions of c, and only they, are
+   then told by the read loop, ARLReadErr), every table and every subscriber's program point are untouched.
+   Non-vacuity: Proofs.ex_idless_error, ex_fault_frame. *)
+Theorem c18_frame_local : forall s c f s1 e1, step s (UpMsg c f) = Some (s1, e1) ->
+  exists x, cns s c = Some x /\
+  match spec_class (c_proto x) f with
+  | FcNone => s1 = s /\ e1 = [OUp c (c_proto x) f]
+  | FcSub w k =>
+    (forall i, ~ In (w, i) (c_subs x)) /\ s1 = s /\ e1 = [OUp c (c_proto x) f]
+    \/ exists i, In (w, i) (c_subs x) /\ e1 = [OUp c (c_proto x) f; ODeliver i k] /\ (terminal k = false -> s1 = s)
+  | FcFault =>
+    e1 = [OUp c (c_proto x) f; OSrvClosed c] /\ (forall j, pc s1 j = pc s j) /\ (forall c', c' <> c -> cns s1 c' = cns s c')
+    /\ conns s1 = conns s /\ exists x', cns s1 c = Some x' /\ c_subs x' = c_subs x /\ c_dead x' = Some CUpstream
+  end.
+Proof. exact frame_local_proof. Qed.
+Print Assumptions c18_frame_local.
+
+(* the same on one observation window (what the driver evaluates on the IMPLEMENTATION's log for every window
+   of a frame addressed to one subscription, Spec.tlocal_b): all deliveries go to the holder of the id, nobody
+   gets a connection error *)
+Theorem c18_terminal_window : forall s c f s1 e1 x w k, step s (UpMsg c f) = Some (s1, e1) -> cns s c = Some x ->
+  spec_class (c_proto x) f = FcSub w k -> tlocal_b (lookup w (c_subs x)) e1 = true.
+Proof. exact terminal_window_proof. Qed.
+Print Assumptions c18_terminal_window.
 
 (* double removal (the subscriber's own cancel and dispatch both call removeSub for one id): removing
    an id that is no longer in the table changes nothing and starts the close flow only if the table
